@@ -390,6 +390,7 @@ func buildSchema(spec *Spec, w *world) (b *built, err error) {
 		named = namedTypesOf(def)
 		assignTypeReqs(spec, named)
 	}
+	prebuild(spec, def, named)
 	s, err := graphql.NewSchema(def)
 	if err != nil {
 		return nil, err
@@ -412,7 +413,7 @@ func buildDefinition(spec *Spec, w *world) (def *graphql.SchemaDefinition, named
 
 	named = map[string]gschema.NamedType{}
 	typeReq := reqSet
-	if spec.Staged != 0 {
+	if spec.Staged >= 1 && spec.Staged <= 3 {
 		typeReq = func([]string) graphql.FeatureSet { return nil } // assigned later: assignTypeReqs
 	}
 	for _, t := range spec.Types {
@@ -789,6 +790,87 @@ func assignTypeReqs(spec *Spec, named map[string]gschema.NamedType) {
 			nt.RequiredFeatures = reqSet(t.Req)
 		case *graphql.ScalarType:
 			nt.RequiredFeatures = reqSet(t.Req)
+		}
+	}
+}
+
+// prebuild (Spec.Staged 3 and 4): the definition's objects are handed to schema.New once BEFORE they are
+// complete, then completed in place — the build that counts is a second build of the same objects after an
+// edit. 3: the first build sees no type features at all (they are assigned afterwards); 4: the first build
+// sees every object / interface / input object with one field only and no arguments, every union with one
+// member, no implemented interfaces, no directive arguments (the rest is added afterwards). The result of
+// the first build is ignored; the finished definition is the same as with any other Staged value.
+func prebuild(spec *Spec, def *graphql.SchemaDefinition, named map[string]gschema.NamedType) {
+	first := func() {
+		defer func() { recover() }()
+		graphql.NewSchema(def)
+	}
+	switch spec.Staged {
+	case 3:
+		first()
+		assignTypeReqs(spec, named)
+	case 4:
+		var restore []func()
+		keepOneField := func(m map[string]*graphql.FieldDefinition) map[string]*graphql.FieldDefinition {
+			var names []string
+			for n := range m {
+				names = append(names, n)
+			}
+			sort.Strings(names)
+			out := map[string]*graphql.FieldDefinition{}
+			if len(names) > 0 {
+				f := m[names[0]]
+				args := f.Arguments
+				f.Arguments = nil
+				restore = append(restore, func() { f.Arguments = args })
+				out[names[0]] = f
+			}
+			return out
+		}
+		for _, t := range spec.Types {
+			if t.Builtin != "" {
+				continue
+			}
+			switch nt := named[t.Name].(type) {
+			case *graphql.ObjectType:
+				fields, ifaces := nt.Fields, nt.ImplementedInterfaces
+				nt.Fields, nt.ImplementedInterfaces = keepOneField(fields), nil
+				restore = append(restore, func() { nt.Fields, nt.ImplementedInterfaces = fields, ifaces })
+			case *graphql.InterfaceType:
+				fields := nt.Fields
+				nt.Fields = keepOneField(fields)
+				restore = append(restore, func() { nt.Fields = fields })
+			case *graphql.UnionType:
+				members := nt.MemberTypes
+				if len(members) > 1 {
+					nt.MemberTypes = members[:1:1]
+				}
+				restore = append(restore, func() { nt.MemberTypes = members })
+			case *graphql.InputObjectType:
+				fields := nt.Fields
+				var names []string
+				for n := range fields {
+					names = append(names, n)
+				}
+				sort.Strings(names)
+				nt.Fields = map[string]*graphql.InputValueDefinition{}
+				if len(names) > 0 {
+					nt.Fields[names[0]] = fields[names[0]]
+				}
+				restore = append(restore, func() { nt.Fields = fields })
+			}
+		}
+		for _, d := range def.Directives {
+			d := d
+			args := d.Arguments
+			if len(args) > 0 {
+				d.Arguments = nil
+				restore = append(restore, func() { d.Arguments = args })
+			}
+		}
+		first()
+		for i := len(restore) - 1; i >= 0; i-- {
+			restore[i]()
 		}
 	}
 }
